@@ -33,6 +33,9 @@ const Type& FLOORExpression::type(Context &ctx) const
   const Type& t0 = _args[0]->type(ctx);
   if (t0 == Type::IMAGINARY)
     return Value::type_imaginary;
+  /* an opaque argument can be a complex */
+  if (t0 == Type::NO_TYPE)
+    return Value::type_no_type;
   return Value::type_numeric;
 }
 
